@@ -54,7 +54,12 @@ def run(task):
         except BaseException as ex:
             if isinstance(ex, (KeyboardInterrupt, SystemExit)):
                 raise
-            r["res"] = exc(ex)
+            if type(ex).__name__ == "ArgumentError" and "Alarm" in str(ex):
+                # the wall-clock alarm fired inside a ctypes argument conversion of z3: ctypes re-raises it as ArgumentError
+                r["res"] = "timeout"
+                EXIT_AFTER = True
+            else:
+                r["res"] = exc(ex)
         rows.append(r)
     for s in task["strings"]:
         r = {"op": "CheckStr", "t": 0, "s": pj.cps(s), "tree": {}, "res": ""}
@@ -63,7 +68,12 @@ def run(task):
         except BaseException as ex:
             if isinstance(ex, (KeyboardInterrupt, SystemExit)):
                 raise
-            r["res"] = exc(ex)
+            if type(ex).__name__ == "ArgumentError" and "Alarm" in str(ex):
+                # the wall-clock alarm fired inside a ctypes argument conversion of z3: ctypes re-raises it as ArgumentError
+                r["res"] = "timeout"
+                EXIT_AFTER = True
+            else:
+                r["res"] = exc(ex)
         rows.append(r)
         r = {"op": "ParseStr", "t": 0, "s": pj.cps(s), "tree": {}, "res": ""}
         try:
@@ -77,7 +87,12 @@ def run(task):
         except BaseException as ex:
             if isinstance(ex, (KeyboardInterrupt, SystemExit)):
                 raise
-            r["res"] = exc(ex)
+            if type(ex).__name__ == "ArgumentError" and "Alarm" in str(ex):
+                # the wall-clock alarm fired inside a ctypes argument conversion of z3: ctypes re-raises it as ArgumentError
+                r["res"] = "timeout"
+                EXIT_AFTER = True
+            else:
+                r["res"] = exc(ex)
         rows.append(r)
     for k in task["repair_trees"]:
         r = {"op": "Repair", "t": k + 1, "s": [], "tree": {}, "res": ""}
@@ -98,7 +113,12 @@ def run(task):
         except BaseException as ex:
             if isinstance(ex, (KeyboardInterrupt, SystemExit)):
                 raise
-            r["res"] = exc(ex)
+            if type(ex).__name__ == "ArgumentError" and "Alarm" in str(ex):
+                # the wall-clock alarm fired inside a ctypes argument conversion of z3: ctypes re-raises it as ArgumentError
+                r["res"] = "timeout"
+                EXIT_AFTER = True
+            else:
+                r["res"] = exc(ex)
         rows.append(r)
     for k in task["mutate_trees"]:
         r = {"op": "Mutate", "t": k + 1, "s": [], "tree": {}, "res": ""}
@@ -117,6 +137,11 @@ def run(task):
         except BaseException as ex:
             if isinstance(ex, (KeyboardInterrupt, SystemExit)):
                 raise
-            r["res"] = exc(ex)
+            if type(ex).__name__ == "ArgumentError" and "Alarm" in str(ex):
+                # the wall-clock alarm fired inside a ctypes argument conversion of z3: ctypes re-raises it as ArgumentError
+                r["res"] = "timeout"
+                EXIT_AFTER = True
+            else:
+                r["res"] = exc(ex)
         rows.append(r)
     return {"rows": rows}
